@@ -146,7 +146,7 @@ func vfC07Run(c vfSerCase, ctx *vfCtx) *vfViolation {
 	}
 	// continuation: source and reloaded twin stay in agreement under further adds / removals
 	for i := 0; i < 12; i++ {
-		if approxHNSW && i < len(c.ContVec) && (c.ContVec[i].Op == "add" || c.ContVec[i].Op == "flush") {
+		if approxHNSW && i < len(c.ContVec) && (c.ContVec[i].Op == "add" || c.ContVec[i].Op == "add_bad" || c.ContVec[i].Op == "flush") {
 			continue // random levels / graph surgery make the two graphs diverge legitimately
 		}
 		if !src.applyCont(i) {
